@@ -130,7 +130,7 @@ def gen_doc(rng, max_custom=3, allow_data=True, dlm=None, vers=None, wrap=None, 
     def tagged_items(s, letter, n):
         out = []
         for j in range(n):
-            tag = "%dx%d" % (s.id, j)
+            tag = "%dq%d" % (s.id, j)
             out.append((item_line(rng, "M" + tag, rng.choice(UNITS), "v" + tag, "from-%s-%s" % (letter, tag)), "item", tag))
         return out
     v = new("V", title("V"))
@@ -140,7 +140,7 @@ def gen_doc(rng, max_custom=3, allow_data=True, dlm=None, vers=None, wrap=None, 
     if dlm:
         lines.append((item_line(rng, "DLM", "", dlm, "delimiter"), "steer", None))
     lines += tagged_items(v, "V", rng.randint(0, 2))
-    v.body = with_fillers(rng, lines, fill)
+    v["body"] = with_fillers(rng, lines, fill)
     secs.append(v)
     rest = []
     w = new("W", title("W"))
@@ -152,31 +152,31 @@ def gen_doc(rng, max_custom=3, allow_data=True, dlm=None, vers=None, wrap=None, 
         lines.append((item_line(rng, "NULL", "", null, "null value"), "steer", None))
     lines += tagged_items(w, "W", rng.randint(*n_items))
     rng.shuffle(lines)
-    w.body = with_fillers(rng, lines, fill)
+    w["body"] = with_fillers(rng, lines, fill)
     rest.append(w)
     c = new("C", title("C"))
     lines = []
     for j in range(ncurves):
-        tag = "%dx%d" % (c.id, j)
+        tag = "%dq%d" % (c.id, j)
         lines.append((item_line(rng, "M" + tag, rng.choice(UNITS[:8]), "v" + tag, "from-C-" + tag), "item", tag))
-    c.body = with_fillers(rng, lines, fill)
+    c["body"] = with_fillers(rng, lines, fill)
     if rng.random() < 0.95:
         rest.append(c)
     else:
         ncurves = rng.randint(1, 4)
     if rng.random() < 0.8:
         p = new("P", title("P"))
-        p.body = with_fillers(rng, tagged_items(p, "P", rng.randint(*n_items)), fill)
+        p["body"] = with_fillers(rng, tagged_items(p, "P", rng.randint(*n_items)), fill)
         rest.append(p)
     if rng.random() < 0.7:
         o = new("O", title("O"))
         lines = []
         for j in range(rng.randint(0, 3)):
-            tag = "%dx%d" % (o.id, j)
+            tag = "%dq%d" % (o.id, j)
             lines.append((rng.choice(["other-%s", "  other-%s  ", "other-%s : with . colon", "VERS. 1.2 : other-%s", "other-%s # x"]) % tag, "other", tag))
         if rng.random() < fill:
             lines.insert(rng.randint(0, len(lines)), ("", "blank", None))
-        o.body = lines
+        o["body"] = lines
         rest.append(o)
     customs = rng.sample(CUSTOM_TITLES, rng.randint(0, max_custom))
     seen = set()
@@ -185,7 +185,7 @@ def gen_doc(rng, max_custom=3, allow_data=True, dlm=None, vers=None, wrap=None, 
             continue
         seen.add(t[1:])
         x = new("X", t)
-        x.body = with_fillers(rng, tagged_items(x, "X", rng.randint(*n_items)), fill)
+        x["body"] = with_fillers(rng, tagged_items(x, "X", rng.randint(*n_items)), fill)
         rest.append(x)
     rng.shuffle(rest)
     if allow_data and rng.random() < 0.9:
@@ -207,7 +207,7 @@ def gen_doc(rng, max_custom=3, allow_data=True, dlm=None, vers=None, wrap=None, 
                 rows.append((rng.choice(["", " ", "   "]) + rng.choice([" ", "  ", "    "]).join(cells) + rng.choice(["", " "]), "data", r))
         if rows and rng.random() < fill / 2 and not sep:
             rows.insert(rng.randint(0, len(rows)), rng.choice([("", "blank", None), ("# comment in data", "comment", None)]))
-        a.body = rows
+        a["body"] = rows
         a["ncols"] = ncurves
         a["nrows"] = nrows
         a["nullcells"] = sorted(nullcells)
@@ -221,7 +221,8 @@ def render(secs, eol="\n", final_newline=True):
         lines.append(s["title"])
         lines += [b[0] for b in s["body"]]
     text = eol.join(lines)
-    return text + (eol if final_newline else "")
+    # an empty last line without terminator would not exist as a line at all
+    return text + (eol if (final_newline or (lines and lines[-1] == "")) else "")
 
 
 def line_number(secs, sec_index, body_index):
@@ -249,7 +250,7 @@ def expected_tags(secs):
     return out
 
 
-TAG = re.compile(r"(\d+x\d+)")
+TAG = re.compile(r"(\d+[qQ]\d+)")
 
 
 def found_tags(dump):
@@ -260,11 +261,11 @@ def found_tags(dump):
         tags = []
         if isinstance(val, str):
             for ln in val.split("\n"):
-                tags += TAG.findall(ln)
+                tags += [t.lower() for t in TAG.findall(ln)]
         else:
             for (mn, unit, value, descr) in val:
                 ts = [TAG.findall(mn), TAG.findall(str(value)), TAG.findall(descr)]
-                flat = [t for x in ts for t in x]
+                flat = [t.lower() for x in ts for t in x]
                 if flat:
                     if not (len(flat) == 3 and ts[0] and len(set(flat)) == 1):
                         problems.append((key, mn, unit, value, descr))
@@ -306,6 +307,11 @@ def real_sections_scan(text):
     return [[a, b, t, kinds[reader.determine_section_type(t)]] for (_, a, b, t) in reader.find_sections_in_file(io.StringIO(text))]
 
 
+def split_lines(text):
+    """the lines `readline` returns"""
+    return io.StringIO(text).readlines()
+
+
 def file_ref(text):
     """what to hand to lasio.read so that `open_file` treats `text` as LAS data (a one-line string would be a file name)"""
     return text if len(text.splitlines()) > 1 else io.StringIO(text)
@@ -331,6 +337,11 @@ def canon_header(las, defaults=None, text=None):
     # steering values re-derived with the real SectionItems lookups from the sections that steer
     steer = [None, None, None, None]
     ver, well = las.sections.get("Version"), las.sections.get("Well")
+    if defaults is not None:
+        if ver is defaults.get("Version"):
+            ver = None
+        if well is defaults.get("Well"):
+            well = None
     if not isinstance(ver, str) and ver is not None:
         for j, key in ((0, "VERS"), (1, "WRAP"), (3, "DLM")):
             if key in ver:
@@ -408,7 +419,12 @@ def header_diff(model, real, multi_vw=False):
     if m["data"] != r["data"]:
         return "data-windows"
     if not multi_vw:
-        for a, b in zip(m["steer"], r["steer"]):
+        # the real steering variables are locals of read(): they are re-derived from the final Version / Well sections,
+        # which is exact when each was assigned from at most one section
+        keys = [k for k, _ in m["sections"]]
+        for j, (a, b) in enumerate(zip(m["steer"], r["steer"])):
+            if ("Well" if j == 2 else "Version") not in keys:
+                continue
             if (a is None) != (b is None) or (a is not None and not value_matches(a, b)):
                 return "steer"
     return None
